@@ -21,7 +21,8 @@ ASSUMPTIONS = [
 ]
 REQUIRED = {"faithful.checked": 300, "independent.copy-mutated": 300, "independent.source-mutated": 300,
             "route.pickle": 20, "route.deepcopy": 20, "route.ctor": 100, "route.concatenate": 20, "route.join": 20,
-            "route.evolve": 20, "mutation.nested-attrib": 100, "sharing.walked": 300}
+            "route.evolve": 20, "mutation.nested-attrib": 100, "sharing.walked": 300,
+            "source.atoms-lent-before-copy": 50, "route.ctor-subclass": 20}
 CHUNK_TIMEOUT = 900
 TECHNIQUE = "runtime monitoring: deep snapshot equality + mutate-one-side/observe-the-other oracle, object-identity sharing walk"
 LEVEL_TEXT = ("Held on the (source x route x mutation) matrix produced from seeded random rich objects: every copy is compared "
@@ -105,7 +106,7 @@ def routes_for(kind):
     r = []
     if kind == "Conformer":
         return [("ctor", "Molecule"), ("ctor", "Structure"), ("ctor", "CartesianGeometry"), ("ctor", "Connectivity"),
-                ("ctor", "Promolecule"), ("atoms-copy", "Molecule"), ("concatenate", "Molecule")]
+                ("ctor", "Promolecule"), ("atoms-copy", "Molecule"), ("concatenate", "Molecule"), ("ctor-subclass", "Molecule")]
     chain = {"Promolecule": ["Promolecule"],
              "Connectivity": ["Promolecule", "Connectivity"],
              "CartesianGeometry": ["Promolecule", "CartesianGeometry"],
@@ -114,6 +115,8 @@ def routes_for(kind):
              "ConformerEnsemble": ["Promolecule", "Connectivity", "ConformerEnsemble"]}[kind]
     r += [("ctor", c) for c in chain]
     r += [("atoms-copy", kind), ("pickle", kind), ("deepcopy", kind)]
+    if kind in ("Structure", "Molecule"):
+        r += [("ctor-subclass", "Molecule"), ("ctor-subclass", "Structure")]
     if kind in ("Structure", "Molecule"):
         r += [("concatenate", kind), ("or", "Structure"), ("join", kind)]
     r += [("evolve-atom", "Atom")]
@@ -288,6 +291,10 @@ def make_copy(route, target, src, rng, extra):
                "Structure": Structure, "Molecule": Molecule, "ConformerEnsemble": ConformerEnsemble}
     if route == "ctor":
         return classes[target](src)
+    if route == "ctor-subclass":
+        # a user-defined subclass of the target class is a copy route like any other
+        sub = type("User" + target, (classes[target],), {})
+        return sub(src)
     if route == "atoms-copy":
         return classes[target if target != "Conformer" else "Molecule"](list(src.atoms), copy_atoms=True)
     if route == "pickle":
@@ -318,8 +325,11 @@ def run_chunk(spec, ctx):
                     continue
                 rng = ctx.rng(spec["chunk"], j, kind)     # same source for all routes of a kind
                 src, keep = make_source(rng, kind)
+                lend(src, rng, ctx)
                 s0 = snap(src)
                 ctx.count(f"route.{route.split('-')[0] if route.startswith('evolve') else route}")
+                if route in ("concatenate", "or", "join"):
+                    pass
                 ctx.case(case, dkey=(kind, route, target, snap_hash(s0)), nontrivial=True,
                          sample={"source": kind, "route": route, "target": target, "n_atoms": src.n_atoms})
                 tag = f"{kind}->{route}:{target}"
@@ -364,13 +374,37 @@ def run_chunk(spec, ctx):
                             ctx.violation(f"{tag}:shares-array-memory:{fa}", case=case)
                 # ---- independent: mutate the copy, watch the source; then the reverse on a second copy
                 watch(ctx, case, tag, mutated=cp, watched=src, watched_snap=s0, rng=rng, direction="copy-mutated")
-                src2, keep2 = make_source(ctx.rng(spec["chunk"], j, kind), kind)
+                rng2 = ctx.rng(spec["chunk"], j, kind)
+                src2, keep2 = make_source(rng2, kind)
+                lend(src2, rng2, ctx)
                 try:
                     cp2 = make_copy(route, target, src2, rng, None)
                 except Exception:  # noqa
                     continue
                 watch(ctx, case, tag, mutated=src2 if keep2 is None or rng.random() < 0.5 else keep2, watched=cp2,
                       watched_snap=snap(cp2), rng=rng, direction="source-mutated")
+
+
+_LENT = []
+
+
+def lend(src, rng, ctx):
+    """before it is copied, the source may have lent its atoms to another structure (a constructor given a list of
+    atoms adopts them unless copy_atoms is set); that structure may still be alive or may have been dropped"""
+    import gc
+    from molli.chem import Promolecule
+
+    r = rng.random()
+    if type(src).__name__ in ("Conformer",) or src.n_atoms == 0 or r < 0.6:
+        return
+    helper = Promolecule(list(src.atoms))
+    ctx.count("source.atoms-lent-before-copy")
+    if r < 0.8:
+        _LENT.append(helper)
+        del _LENT[:-8]
+    else:
+        del helper
+        gc.collect()
 
 
 def field_of(path):
